@@ -906,6 +906,25 @@ for c_i in range(nsens):
     rwts = model.RayWeights({"ptx": Qtx}, {"prx": Qrx}, None, None, {"ptx": Ttx, "prx": Trx})
     ma = model.model_amplitudes_factory(tx, rx, _View("ptx", "prx", "TT"), rwts, {"TT": scat_obj}, a)
     Pfull = np.asarray(ma[...])
+    # history: results of successive requests on ONE object are kept by the caller; a later
+    # request (same shape or not) must not alter an earlier answer, and each must equal its rows of P
+    if ng >= 2:
+        kept = []
+        reqs = [g for g in range(ng)] + [slice(0, 1), slice(ng - 1, ng), -1, -2]
+        for rq in reqs:
+            ans = ma[rq]
+            kept.append((rq, ans, np.array(ans, copy=True)))
+        evaluations += len(kept)
+        for rq, ans, snap in kept:
+            want = Pfull[rq]
+            same = np.array_equal(np.asarray(ans), snap, equal_nan=True)
+            right = np.allclose(np.asarray(ans), want, rtol=1e-12, atol=0, equal_nan=True)
+            if not (same and right):
+                chk.violation(f"amp:kept-results:{cls}", "an answer of ModelAmplitudes.__getitem__ kept by the caller changed after a later "
+                              "request on the same object (or differs from the corresponding rows of P)",
+                              dict(cls=cls, request=repr(rq), numpoints=ng, numtimetraces=ntt, answer_now=np.asarray(ans),
+                                   answer_when_returned=snap, rows_of_P=want), failing_input_found=True)
+                break
     with np.errstate(all="ignore"):
         def_uniform = (w[np.newaxis] * Pfull).sum(axis=1) / ntt
         absP = np.abs(Pfull)
